@@ -28,6 +28,9 @@ void vm_heap_destroy(VmHeap *heap) {
     free(heap->intern_table);
     heap->intern_table = NULL;
     heap->intern_count = 0;
+    free(heap->dead);
+    heap->dead = NULL;
+    heap->dead_count = heap->dead_capacity = 0;
 }
 
 /* ========================================================================
@@ -61,6 +64,7 @@ static void release_union(VmHeap *heap, VmUnion *u);
 static void release_tuple(VmHeap *heap, VmTuple *t);
 static void release_closure(VmHeap *heap, VmClosure *c);
 static void release_hashmap(VmHeap *heap, VmHashMap *m);
+static void release_container(VmHeap *heap, NanoValue v);
 
 void vm_release(VmHeap *heap, NanoValue v) {
     if (!val_is_heap_obj(v) && v.tag != TAG_FUNCTION) return;
@@ -72,21 +76,52 @@ void vm_release(VmHeap *heap, NanoValue v) {
     if (hdr->ref_count > 0) return;
 
     /* ref_count reached 0 - free the object */
-    switch (v.tag) {
-        case TAG_STRING: {
-            VmString *s = v.as.string;
-            heap->stats.freed += sizeof(VmString) + s->length + 1;
-            heap->stats.num_objects--;
-            /* Remove from intern table if present */
-            for (uint32_t i = 0; i < heap->intern_count; i++) {
-                if (heap->intern_table[i] == s) {
-                    heap->intern_table[i] = heap->intern_table[--heap->intern_count];
-                    break;
-                }
+    if (v.tag == TAG_STRING) {
+        VmString *s = v.as.string;
+        heap->stats.freed += sizeof(VmString) + s->length + 1;
+        heap->stats.num_objects--;
+        /* Remove from intern table if present */
+        for (uint32_t i = 0; i < heap->intern_count; i++) {
+            if (heap->intern_table[i] == s) {
+                heap->intern_table[i] = heap->intern_table[--heap->intern_count];
+                break;
             }
-            free(s);
-            break;
         }
+        free(s);
+        return;
+    }
+
+    /* A container: freeing it releases its members, which may be containers whose last
+     * reference this was, to any depth (a module can nest values as deep as its
+     * instruction budget allows).  Only the outermost call frees; calls made while it
+     * does so queue the dead container. */
+    if (heap->releasing) {
+        if (heap->dead_count == heap->dead_capacity) {
+            uint32_t new_cap = heap->dead_capacity ? heap->dead_capacity * 2 : 64;
+            NanoValue *nd = realloc(heap->dead, (size_t)new_cap * sizeof(NanoValue));
+            if (nd) {
+                heap->dead = nd;
+                heap->dead_capacity = new_cap;
+            }
+        }
+        if (heap->dead_count < heap->dead_capacity) {
+            heap->dead[heap->dead_count++] = v;
+            return;
+        }
+        /* out of memory for the queue: free it right here (recursion as before) */
+        release_container(heap, v);
+        return;
+    }
+    heap->releasing = true;
+    release_container(heap, v);
+    while (heap->dead_count > 0) {
+        release_container(heap, heap->dead[--heap->dead_count]);
+    }
+    heap->releasing = false;
+}
+
+static void release_container(VmHeap *heap, NanoValue v) {
+    switch (v.tag) {
         case TAG_ARRAY:
             release_array(heap, v.as.array);
             break;
